@@ -158,10 +158,17 @@ async fn c35_case(case: &Value, opts: &ExecOpts, stats: &mut HashMap<String, u64
                 continue;
             }
         };
-        let (ta, tb) = (format!("{}", plan.display_indent_schema()), format!("{}", dec.display_indent_schema()));
+        // the property's "same textual form" is the plan's Display (display_indent); the form with schemas
+        // is compared too but only reported
+        let (ta, tb) = (format!("{}", plan.display_indent()), format!("{}", dec.display_indent()));
         v["text_equal"] = json!(ta == tb);
         if ta != tb {
             v["text_diff"] = first_diff(&ta, &tb);
+        }
+        let (sa, sb) = (format!("{}", plan.display_indent_schema()), format!("{}", dec.display_indent_schema()));
+        v["schema_text_equal"] = json!(sa == sb);
+        if sa != sb {
+            v["schema_text_diff"] = first_diff(&sa, &sb);
         }
         let (ea, eb) = (node_exprs(plan), node_exprs(&dec));
         v["exprs_equal"] = json!(ea == eb);
@@ -239,10 +246,14 @@ async fn c36_case(case: &Value, opts: &ExecOpts) -> Value {
                 Err(e) => v["dec_err"] = json!(e),
                 Ok(dec) => {
                     let tb = displayable(dec.as_ref()).set_show_schema(true).indent(true).to_string();
-                    v["text_equal"] = json!(ta == tb);
-                    if ta != tb {
-                        v["text_diff"] = first_diff(&ta, &tb);
+                    // structure, expressions, partitioning, ordering, options: compared modulo the nullability
+                    // markers of the (recomputed) schemas, which the property does not list
+                    let (na, nb) = (ta.replace(";N", ""), tb.replace(";N", ""));
+                    v["text_equal"] = json!(na == nb);
+                    if na != nb {
+                        v["text_diff"] = first_diff(&na, &nb);
                     }
+                    v["nullability_equal"] = json!(ta == tb);
                     let (pa, pb) = (format!("{:?}", plan.properties().output_partitioning()), format!("{:?}", dec.properties().output_partitioning()));
                     let (oa, ob) = (format!("{:?}", plan.properties().output_ordering()), format!("{:?}", dec.properties().output_ordering()));
                     v["props_equal"] = json!(pa == pb && oa == ob);
